@@ -417,7 +417,8 @@ Definition spec_fit (tbl : list (Q * Q)) (tp : Q) (f : fit Q) (o : fitout) : boo
   let len := length (data f) in
   let ex := @excluded O f in
   let none := fun _ : nat => false in
-  negb (@fit_okb O f && @noise_positiveb O f && match inversion f with Some iv => @inv_okb O iv | None => true end) ||
+  (* in-scope inputs only (the harness generates nothing else): an out-of-scope case is rejected, never waved through *)
+  (@fit_okb O f && @noise_positiveb O f && @fit_inv_okb O f) &&
   (map_ok exact len none (@s_data O f) (o_data o) &&
    map_ok exact len ex (@s_residual O f) (o_residual o) &&
    map_ok exact len ex (@s_normres O f) (o_normres o) &&
@@ -447,7 +448,7 @@ Definition spec_fit (tbl : list (Q * Q)) (tp : Q) (f : fit Q) (o : fitout) : boo
 Definition spec_inv (tbl : list (Q * Q)) (iv : inv Q) (o : invout) : bool :=
   let O := QL tbl in
   let R := reg_indices (objs iv) in
-  negb (@inv_okb O iv) ||
+  @inv_okb O iv &&
   (mq exact (@tabulate O (@s_H O iv) R) (o_Hred o) &&
    mq exact (@tabulate O (@s_FH O iv) R) (o_FHred o) &&
    lq exact (map (@at_ O (recon iv)) R) (o_sred o) &&
@@ -462,7 +463,7 @@ Definition spec_util (tbl : list (Q * Q)) (tp : Q) (mk : list bool) (d n m : lis
   let ex := fun i => nth i mk true in
   let fs := {| mask := mk; use_mask := false; sky := 0; data := d; noise := n; model := m; inversion := None |} in
   let fw := {| mask := mk; use_mask := true; sky := 0; data := d; noise := n; model := m; inversion := None |} in
-  negb (Nat.eqb (length n) len && Nat.eqb (length m) len && Nat.eqb (length mk) len) ||
+  (Nat.eqb (length n) len && Nat.eqb (length m) len && Nat.eqb (length mk) len) &&
   (map_ok exact len none (@s_residual O fs) (u_res o) &&
    map_ok exact len none (@s_normres O fs) (u_nres o) &&
    map_ok exact len none (@s_chi O fs) (u_cmap o) &&
